@@ -123,31 +123,38 @@ func workerMain() {
 	}
 }
 
+// rawSleep blocks the calling thread in nanosleep. (time.Sleep is useless here: an idle P waits
+// for its timers in epoll with a granularity of 1 ms.)
+func rawSleep(us int64) {
+	ts := syscall.Timespec{Sec: 0, Nsec: us * 1000}
+	syscall.RawSyscall(syscall.SYS_NANOSLEEP, uintptr(unsafe.Pointer(&ts)), 0, 0)
+}
+
 // monitor revokes access to the input arena when one call of a decoder has consumed more CPU time
-// than allowed. It only counts CPU time it has seen pass between two of its own polls during the
-// same call, so it under-estimates. It polls faster for a while after a trip (hangs come in runs).
+// than allowed. It runs on a thread of its own. It only counts CPU time it has seen pass between
+// two of its own polls during the same call, so it under-estimates. It polls faster for a while
+// after a trip (hangs come in runs).
 func (w *bulk) monitor(tid int) {
+	runtime.LockOSThread()
 	var last uint64
 	var acc, lastCPU int64
-	seen := 0
 	hot := 0
 	for {
 		if hot > 0 {
 			hot--
-			time.Sleep(60 * time.Microsecond)
+			rawSleep(40)
 		} else {
-			time.Sleep(300 * time.Microsecond)
+			rawSleep(250)
 		}
 		s := w.e.seq.Load()
 		limit := w.tripNs.Load()
-		if s&1 == 0 || s != last || limit == 0 {
-			last, seen = s, 0
+		if s&1 == 0 || limit == 0 {
+			last = s
 			continue
 		}
-		seen++
 		now := threadCPU(tid)
-		if seen == 1 {
-			acc, lastCPU = 0, now
+		if s != last {
+			last, acc, lastCPU = s, 0, now
 			continue
 		}
 		acc += now - lastCPU
@@ -155,8 +162,8 @@ func (w *bulk) monitor(tid int) {
 		if acc >= limit && !w.e.tripped.Load() {
 			w.e.tripped.Store(true)
 			w.e.a.protect(true)
-			hot = 2000
-			seen = 0
+			hot = 5000
+			acc = 0
 		}
 	}
 }
